@@ -9,8 +9,8 @@ from ..cfg import cfg_of
 from ..ini import Ini
 from ..model import AnalysisError
 from ..roles import roles_of
-from ..terms import call_name, canon, conjuncts, const_num, guard_canon, guard_of, linear, norm_stmt, state_key
-from .common import attr_stores, deref_canon as _deref, iter_stores, key_stores, reaching_assignments, self_attr_of
+from ..terms import call_name, canon, conjuncts, const_num, guard_canon, guard_extra, guard_of, linear, norm_stmt, state_key
+from .common import attr_stores, deref_canon as _deref, iter_stores, key_stores, pos, reaching_assignments, self_attr_of
 
 EXPLANATION = (
     "R1 complete enumeration of the stores to the poll mesh exponent in the package, each in normal form with its guard: initialisation from "
@@ -241,6 +241,20 @@ def check(ctx):
                 second_ok = cb in ("((OPT[search_grid_multiplier] * self.mesh_size_integer) - OPT[search_grid_number])",)
                 if first_ok and second_ok:
                     ok3 = True
+        if ok3 and fn is R.poll_step:
+            # the refinement after a failed poll runs whenever the search size is not locked to the mesh size (when it is
+            # locked the exponent is recomputed from the mesh at the start of the next iteration): apart from the
+            # conditions of the poll's own decrement, the only guard it may carry is ``not search_size_locked``
+            decs = [s_ for t_, v_, s_, k_ in iter_stores(fn.node) if canon(t_) == "self.mesh_size_integer" and k_ == "aug" and isinstance(s_.op, ast.Sub)]
+            if decs:
+                base = set()
+                for d_ in decs:
+                    base |= set(guard_canon(prog, fn, d_))
+                first_dec = min(decs, key=pos)
+                allowed = set(guard_canon(prog, fn, first_dec)) | {"not OPT[search_size_locked]", "(not OPT[search_size_locked])"}
+                extra = guard_extra(prog, fn, s, allowed)
+                if extra:
+                    ctx.fail(fn, s, f"the refinement of the search mesh after a failed poll only runs under {extra}: otherwise the poll mesh shrinks below the search mesh, which then exceeds it", construct=f"search refinement guarded by {extra[0][:50]}")
         ctx.check(ok3, fn, s, "search exponent <- min(0 | itself, m*k - n)", f"the search mesh exponent is set to '{canon(v)[:70]}', not min(., mesh exponent * search_grid_multiplier - search_grid_number)", construct=f"OS[search_size_integer] <- {canon(v)[:70]}")
     ctx.check(k is not None and k >= 1 and n is not None and n >= 0, ini.advanced.path, None, f"ini: search_grid_multiplier = {k} >= 1, search_grid_number = {n} >= 0", f"ini constants k={k}, n={n} do not give m*k - n <= m", construct=f"ini search grid constants k={k} n={n}")
     def _pow_of_search_exponent(fn, v) -> bool:
